@@ -199,3 +199,139 @@ Example C16_ex_basic :
   | _ => False
   end.
 Proof. vm_compute. repeat split; reflexivity. Qed.
+
+From GV Require Import Proofs.C16.Concat.
+
+(* ---- concatenations of lists (traits/src/helpers/concatenation.rs, runtime list.rs) ---- *)
+
+(* [denotes D s addr t]: read through the getters of the data implementation, [addr] holds the
+   concatenation tree [t] whose leaves are lists (LeafList items) or single non-list values
+   (LeafItem), [flatten t] is its left-to-right sequence of items.  [RegLaws D] are the laws of
+   the register stack the worklist borrows (push/pop are a stack and leave the value getters
+   alone; satisfied by the SimpleGarnishData model: [simple_laws]).
+   Indexing a concatenation with k >= 0 and fuel >= concat_fuel t (= number of nodes of t)
+   returns item k of the flattening for k < length, "no item" (None, not an error) past the
+   end, and every register the worklist pushed is popped again: the register stack is what it
+   was and the state differs from the initial one at most there ([frame]). *)
+Theorem C16_concat_index : forall St (D : DataOps St) (L : RegLaws D) fuel addr tl tr s k,
+  denotes D s addr (Cat tl tr) -> concat_fuel (Cat tl tr) <= fuel ->
+  exists s', index_concatenation_for D fuel addr (Z.of_nat k) s = Ok (s', Done (nth_error (flatten (Cat tl tr)) k)) /\
+             regs L s' = regs L s /\ frame L s s'.
+Proof. exact @concat_index. Qed.
+Print Assumptions C16_concat_index.
+
+(* a negative index: no item, registers restored *)
+Theorem C16_concat_index_negative : forall St (D : DataOps St) (L : RegLaws D) fuel addr tl tr s z,
+  denotes D s addr (Cat tl tr) -> concat_fuel (Cat tl tr) <= fuel -> (z < 0)%Z ->
+  exists s', index_concatenation_for D fuel addr z s = Ok (s', Done None) /\
+             regs L s' = regs L s /\ frame L s s'.
+Proof. exact @concat_index_negative. Qed.
+Print Assumptions C16_concat_index_negative.
+
+(* the public entry point on a Concatenation is index_concatenation_for *)
+Theorem C16_concat_access_with_integer : forall St (D : DataOps St) fuel z addr s,
+  d_get_data_type D addr s = Ok T_Concatenation ->
+  access_with_integer D fuel z addr s = index_concatenation_for D fuel addr z s.
+Proof. exact @access_with_integer_concat. Qed.
+Print Assumptions C16_concat_access_with_integer.
+
+(* symbol lookup on a concatenation uses iterate_rev_concatenation_mut: the children of every
+   concatenation node are visited right to left, the items of one list leaf first to last
+   ([lookup_order]); the answer is the value of the first pair keyed by the symbol in that
+   order, None when no leaf item is such a pair; registers restored.  [viewed D s a v]: read
+   through the getters, item a is an association (Some (key, value)) or not (None). *)
+Theorem C16_concat_lookup : forall St (D : DataOps St) (L : RegLaws D) fuel sym addr tl tr s (view : nat -> assoc_view),
+  denotes D s addr (Cat tl tr) -> concat_fuel (Cat tl tr) <= fuel ->
+  (forall a, In a (lookup_order (Cat tl tr)) -> viewed D s a (view a)) ->
+  exists s', access_with_symbol D fuel sym addr s =
+               Ok (s', Done (assoc_lookup sym (map view (lookup_order (Cat tl tr))))) /\
+             regs L s' = regs L s /\ frame L s s'.
+Proof. exact @concat_lookup. Qed.
+Print Assumptions C16_concat_lookup.
+
+(* with distinct keys (the property's assumption) the order does not matter: every key of
+   every leaf of the flattening is found *)
+Theorem C16_concat_lookup_finds_every_key : forall St (D : DataOps St) (L : RegLaws D) fuel sym addr tl tr s (view : nat -> assoc_view) a v,
+  denotes D s addr (Cat tl tr) -> concat_fuel (Cat tl tr) <= fuel ->
+  (forall a, In a (lookup_order (Cat tl tr)) -> viewed D s a (view a)) ->
+  NoDup (keys_of (map view (lookup_order (Cat tl tr)))) ->
+  In a (flatten (Cat tl tr)) -> view a = Some (sym, v) ->
+  exists s', access_with_symbol D fuel sym addr s = Ok (s', Done (Some v)) /\ regs L s' = regs L s /\ frame L s s'.
+Proof. exact @concat_lookup_found. Qed.
+Print Assumptions C16_concat_lookup_finds_every_key.
+
+(* fuel: one unit per node of the tree suffices for both operations *)
+Theorem C16_concat_fuel_suffices : forall St (D : DataOps St) (L : RegLaws D) fuel addr tl tr s,
+  denotes D s addr (Cat tl tr) -> concat_fuel (Cat tl tr) <= fuel ->
+  (forall z, index_concatenation_for D fuel addr z s <> OutOfFuel) /\
+  (forall sym view, (forall a, In a (lookup_order (Cat tl tr)) -> viewed D s a (view a)) ->
+     access_with_symbol D fuel sym addr s <> OutOfFuel).
+Proof. exact concat_fuel_suffices. Qed.
+Print Assumptions C16_concat_fuel_suffices.
+
+(* the laws are those of the SimpleGarnishData model, where "registers restored and nothing
+   else touched" is equality of states *)
+Theorem C16_simple_concat_index : forall h fuel addr tl tr s k,
+  denotes (simple_ops h) s addr (Cat tl tr) -> concat_fuel (Cat tl tr) <= fuel ->
+  index_concatenation_for (simple_ops h) fuel addr (Z.of_nat k) s = Ok (s, Done (nth_error (flatten (Cat tl tr)) k)).
+Proof. exact simple_concat_index. Qed.
+Print Assumptions C16_simple_concat_index.
+
+Theorem C16_simple_concat_index_negative : forall h fuel addr tl tr s z,
+  denotes (simple_ops h) s addr (Cat tl tr) -> concat_fuel (Cat tl tr) <= fuel -> (z < 0)%Z ->
+  index_concatenation_for (simple_ops h) fuel addr z s = Ok (s, Done None).
+Proof. exact simple_concat_index_negative. Qed.
+Print Assumptions C16_simple_concat_index_negative.
+
+Theorem C16_simple_concat_lookup : forall h fuel sym addr tl tr s,
+  denotes (simple_ops h) s addr (Cat tl tr) -> concat_fuel (Cat tl tr) <= fuel ->
+  (forall a, In a (lookup_order (Cat tl tr)) -> svalid s a) ->
+  access_with_symbol (simple_ops h) fuel sym addr s =
+    Ok (s, Done (assoc_lookup sym (map (sview s) (lookup_order (Cat tl tr))))).
+Proof. exact simple_concat_lookup. Qed.
+Print Assumptions C16_simple_concat_lookup.
+
+(* non-vacuity: [ex_concat_store] holds the keyed lists 9 = (:5 = 7, 7) and 12 = (:12 = 9, :20 = 7),
+   their concatenation 13 and the nested concatenation 15 = 13 <> (:5 = 9).  The hypotheses of
+   the theorems hold for 13 and 15; the model run with exactly concat_fuel agrees. *)
+Example C16_ex_concat_two_lists :
+  let h := fun _ : sdata => 0%N in
+  let s := ex_concat_store in
+  denotes (simple_ops h) s 13 ex_tree13 /\ flatten ex_tree13 = [5; 4; 8; 11] /\ concat_fuel ex_tree13 = 3 /\
+  index_concatenation_for (simple_ops h) 3 13 0%Z s = Ok (s, Done (Some 5)) /\
+  index_concatenation_for (simple_ops h) 3 13 3%Z s = Ok (s, Done (Some 11)) /\
+  index_concatenation_for (simple_ops h) 3 13 4%Z s = Ok (s, Done None) /\
+  index_concatenation_for (simple_ops h) 3 13 (-1)%Z s = Ok (s, Done None) /\
+  index_concatenation_for (simple_ops h) 2 13 4%Z s = OutOfFuel /\
+  access_with_symbol (simple_ops h) 3 5%N 13 s = Ok (s, Done (Some 4)) /\
+  access_with_symbol (simple_ops h) 3 20%N 13 s = Ok (s, Done (Some 4)) /\
+  access_with_symbol (simple_ops h) 3 12%N 13 s = Ok (s, Done (Some 7)) /\
+  access_with_symbol (simple_ops h) 3 99%N 13 s = Ok (s, Done None).
+Proof. split; [apply ex_denotes13|]. vm_compute. repeat split; reflexivity. Qed.
+
+Example C16_ex_concat_nested :
+  let h := fun _ : sdata => 0%N in
+  let s := ex_concat_store in
+  denotes (simple_ops h) s 15 ex_tree15 /\ (forall a, In a (lookup_order ex_tree15) -> svalid s a) /\
+  flatten ex_tree15 = [5; 4; 8; 11; 14] /\ lookup_order ex_tree15 = [14; 8; 11; 5; 4] /\ concat_fuel ex_tree15 = 5 /\
+  index_concatenation_for (simple_ops h) 5 15 2%Z s = Ok (s, Done (Some 8)) /\
+  index_concatenation_for (simple_ops h) 5 15 4%Z s = Ok (s, Done (Some 14)) /\
+  index_concatenation_for (simple_ops h) 5 15 5%Z s = Ok (s, Done None) /\
+  (* key 5 occurs twice: the rightmost leaf wins *)
+  access_with_symbol (simple_ops h) 5 5%N 15 s = Ok (s, Done (Some 7)) /\
+  access_with_symbol (simple_ops h) 5 12%N 15 s = Ok (s, Done (Some 7)) /\
+  access_with_symbol (simple_ops h) 5 20%N 15 s = Ok (s, Done (Some 4)) /\
+  access_with_symbol (simple_ops h) 5 99%N 15 s = Ok (s, Done None).
+Proof. split; [apply ex_denotes15|]. split; [apply ex_valid15|]. vm_compute. repeat split; reflexivity. Qed.
+
+(* and the theorems applied to it *)
+Example C16_ex_concat_by_theorem : forall h k sym,
+  index_concatenation_for (simple_ops h) 5 15 (Z.of_nat k) ex_concat_store =
+    Ok (ex_concat_store, Done (nth_error [5; 4; 8; 11; 14] k)) /\
+  access_with_symbol (simple_ops h) 5 sym 15 ex_concat_store =
+    Ok (ex_concat_store, Done (assoc_lookup sym [Some (5%N, 7); Some (12%N, 7); Some (20%N, 4); Some (5%N, 4); None])).
+Proof.
+  intros h k sym. split.
+  - exact (C16_simple_concat_index h 5 15 _ _ ex_concat_store k (ex_denotes15 h) (Nat.le_refl _)).
+  - exact (C16_simple_concat_lookup h 5 sym 15 _ _ ex_concat_store (ex_denotes15 h) (Nat.le_refl _) ex_valid15).
+Qed.
